@@ -687,7 +687,115 @@ def bounded_roundtrip(tier, seed):
 
 
 CONTRACTS = [NFields, FormatIndex, ReadField, Times, AddField, Initialize, LocalBounds, BlockInit]
-EXTRAS = [lemma_partition, block_ranks_bijection, bounded_roundtrip]
 ASSUMPTIONS = ['numpy tofile/fromfile are inverse on raw bytes (validated only by the bounded real-file layer)']
 UNDECIDED = ['MPI branches of Rectilinear.addField/readField (mpi4py absent)', 'LogToFile hook (resume into an existing file) not under contract',
              'readHeader/setHeader/hInfos inverse: covered only by the bounded real-file layer']
+
+
+def bounded_log_to_file(tier, seed):
+    """LogToFile hook on real runs and real files: every accepted step's end value is appended once and read back bit-identically; a run
+    continued from the last stored state (pre_run with t0 > 0 on an existing file) appends without overwriting or duplicating; starting a
+    fresh run onto an existing file is refused unless overwriting is enabled; a record cut off by a crash is dropped on resume"""
+    import tempfile, shutil, importlib
+    from pySDC.helpers import fieldsIO as F
+
+    for n in ('open', 'int', 'float'):
+        F.__dict__.pop(n, None)
+    F = importlib.reload(F)
+    import pySDC.implementations.hooks.log_solution as LS
+
+    LS = importlib.reload(LS)
+    from pySDC.implementations.controller_classes.controller_nonMPI import controller_nonMPI
+    from pySDC.implementations.problem_classes.TestEquation_0D import testequation0d
+    from pySDC.implementations.sweeper_classes.generic_implicit import generic_implicit
+    from pySDC.implementations.hooks.log_solution import LogSolution
+
+    tmp = tempfile.mkdtemp(prefix='verif_c16_log_')
+    fails, cases = [], 0
+
+    def controller(hook_cls, nprocs=1):
+        d = dict(problem_class=testequation0d, problem_params=dict(lambdas=np.array([-1.0, -0.5 + 2j, 0.3j]), u0=1.0), sweeper_class=generic_implicit,
+                 sweeper_params=dict(num_nodes=2, quad_type='RADAU-RIGHT'), level_params=dict(dt=0.125), step_params=dict(maxiter=3))
+        return controller_nonMPI(nprocs, dict(hook_class=[hook_cls, LogSolution], logger_level=40, dump_setup=False), d)
+
+    def scenario(tag, Hook, nprocs, cut, fn):
+        c = controller(Hook, nprocs)
+        P = c.MS[0].levels[0].prob
+        u0 = P.u_exact(0.0)
+        uend, stats = c.run(u0, 0.0, 0.5)
+        want = {0.0: np.asarray(P.processSolutionForOutput(u0))}
+        for k, v in stats.items():
+            if k.type == 'u':
+                want[float(k.time)] = np.asarray(P.processSolutionForOutput(v))
+        f = F.FieldsIO.fromFile(fn)
+        ts = f.times
+        if not (len(ts) == len(want) and all(abs(a - b) < 1e-14 for a, b in zip(ts, sorted(want))) and sorted(ts) == ts and len(set(ts)) == len(ts)):
+            fails.append(f'{tag}: stored times {ts} are not exactly the initial time and the end times of the accepted steps {sorted(want)}')
+            return
+        for i, t in enumerate(sorted(want)):
+            if f.readField(i)[1].tobytes() != want[t].tobytes():
+                fails.append(f'{tag}: stored field {i} differs from the logged solution')
+        size_before = os.path.getsize(fn)
+        # a fresh start onto the existing file is refused
+        try:
+            controller(Hook, nprocs).run(u0, 0.0, 0.25)
+            fails.append(f'{tag}: existing file overwritten by a fresh run')
+        except FileExistsError:
+            pass
+        if os.path.getsize(fn) != size_before:
+            fails.append(f'{tag}: file size changed by the refused run')
+        n_complete = len(ts)
+        if cut is not None:
+            # a crash in the middle of the next append
+            with open(fn, 'ab') as fh:
+                fh.write(b'\x01' * cut)
+        # continue from the last stored state
+        c2 = controller(Hook, nprocs)
+        last = Hook.load(-1)
+        if abs(last['t'] - 0.5) > 1e-14 or last['u'].tobytes() != want[max(want)].tobytes():
+            fails.append(f'{tag}: load(-1) does not return the last complete record')
+            return
+        u1 = P.dtype_u(u0)
+        u1[:] = last['u']
+        uend2, stats2 = c2.run(u1, 0.5, 1.0)
+        f2 = F.FieldsIO.fromFile(fn)
+        ts2 = f2.times
+        new = {float(k.time): np.asarray(P.processSolutionForOutput(v)) for k, v in stats2.items() if k.type == 'u'}
+        expect_t = sorted(want) + sorted(new)
+        if not (len(ts2) == len(expect_t) and all(abs(a - b) < 1e-14 for a, b in zip(ts2, expect_t))):
+            fails.append(f'{tag}: after resuming, stored times {ts2} != {expect_t}')
+            return
+        for i, t in enumerate(sorted(want)):
+            if f2.readField(i)[1].tobytes() != want[t].tobytes():
+                fails.append(f'{tag}: record {i} of the first run damaged by the resumed run')
+        for j, t in enumerate(sorted(new)):
+            if f2.readField(n_complete + j)[1].tobytes() != new[t].tobytes():
+                fails.append(f'{tag}: record appended by the resumed run differs from its logged solution')
+
+    try:
+        for nprocs in (1, 2):
+            for cut in (None, 5, 20):
+                cases += 1
+                fn = os.path.join(tmp, f'run_{nprocs}_{cut}.pySDC')
+
+                class Hook(LS.LogToFile):
+                    filename = fn
+                    time_increment = 0
+                    allow_overwriting = False
+
+                tag = f'procs={nprocs},cut={cut}'
+                try:
+                    scenario(tag, Hook, nprocs, cut, fn)
+                except FileNotFoundError:
+                    raise
+                except Exception as e:  # a logging hook that makes a valid run fail is a violation, not a checker problem
+                    fails.append(f'{tag}: run with LogToFile raised {type(e).__name__}: {str(e)[:100]}')
+    finally:
+        shutil.rmtree(tmp, ignore_errors=True)
+    ob = dict(name='bounded:LogToFile_runs_resume_and_overwrite_protection', status='proved' if not fails else 'refuted', backend='enumeration', seconds=0.0, kind='bounded', size=0,
+              model=dict(first_failures=fails[:5]) if fails else None, reason='', path=0, counted=False)
+    return dict(contract='bounded:LogToFile.real_runs', prop='C16', inst={}, label='bounded', kind='bounded', obligations=[ob], canaries=[], paths=1, status='ok',
+                bounded=dict(what='LogToFile on real runs: one record per accepted step, bit-exact, resume, overwrite protection, crash in the middle of an append', bound='test equation, 1-2 steps per block, cuts of 5 / 20 bytes', cases=cases, failures=len(fails)))
+
+
+EXTRAS = [lemma_partition, block_ranks_bijection, bounded_roundtrip, bounded_log_to_file]
